@@ -276,15 +276,51 @@ class SStr:
             out.append(_norm(z3.If(z3.And(cpt(x) >= 97, cpt(x) <= 122), cpt(x) - 32, cpt(x))))
         return SStr(out)
 
+    def isalpha(self):
+        """only for characters known to be ASCII (str.isalpha of other characters needs the Unicode tables)"""
+        if not self.c:
+            return False
+        conds = []
+        for x in self.c:
+            if isinstance(x, int):
+                if not chr(x).isalpha():
+                    return False
+                continue
+            if not bool(SBool(x.e < 128)):
+                raise Inconclusive("str.isalpha on a symbolic non-ASCII character")
+            conds.append(z3.Or(z3.And(x.e >= 65, x.e <= 90), z3.And(x.e >= 97, x.e <= 122)))
+        return bool(SBool(z3.And(conds + [z3.BoolVal(True)])))
+
     def isdigit(self):
         if not self.c:
             return False
         return bool(SBool(z3.And([z3.And(cpt(x) >= 48, cpt(x) <= 57) for x in self.c])))
 
     def encode(self, enc='utf-8', errors='strict'):
-        if enc.lower().replace('-', '') in ('ascii', 'latin1', 'utf8') and all(
+        e = enc.lower().replace('-', '').replace('_', '')
+        if e in ('ascii', 'latin1', 'utf8') and all(
                 isinstance(x, SInt) and x.hi < 128 or isinstance(x, int) and x < 128 for x in self.c):
             return SBytes(self.c)
+        if e == 'utf8':
+            # one fork per encoded-length class of each symbolic character
+            out = []
+            for x in self.c:
+                if isinstance(x, int):
+                    out += list(chr(x).encode('utf-8', errors))
+                    continue
+                if bool(SBool(x.e < 0x80)):
+                    out.append(x)
+                elif bool(SBool(x.e < 0x800)):
+                    out += [(x >> 6) | 0xC0, (x & 0x3F) | 0x80]
+                elif bool(SBool(x.e < 0x10000)):
+                    if bool(SBool(z3.And(x.e >= 0xD800, x.e <= 0xDFFF))):
+                        if errors == 'strict':
+                            raise UnicodeEncodeError('utf-8', '\ud800', 0, 1, 'surrogates not allowed')
+                        raise Inconclusive("utf-8 encode of a surrogate with errors=%r" % errors)
+                    out += [(x >> 12) | 0xE0, ((x >> 6) & 0x3F) | 0x80, (x & 0x3F) | 0x80]
+                else:
+                    out += [(x >> 18) | 0xF0, ((x >> 12) & 0x3F) | 0x80, ((x >> 6) & 0x3F) | 0x80, (x & 0x3F) | 0x80]
+            return SBytes(out)
         s = ''.join(chr(x if isinstance(x, int) else x.concretize()) for x in self.c)
         return s.encode(enc, errors)
 
@@ -303,6 +339,8 @@ class SStr:
 
 def sbytes_decode(b, enc, errors):
     e = enc.lower().replace('-', '').replace('_', '')
+    if all(isinstance(x, int) for x in b.items):
+        return bytes(b.items).decode(enc, errors)
     if e == 'ascii':
         out = []
         for x in b.items:
@@ -321,7 +359,59 @@ def sbytes_decode(b, enc, errors):
         return SStr(b.items)
     if e == 'utf8' and errors == 'strict':
         return utf8_decode_strict(b)
+    if e == 'utf8' and errors == 'replace':
+        try:
+            return utf8_decode_strict(b)
+        except UnicodeDecodeError:
+            raise Inconclusive("utf-8 decode with errors='replace' reached an invalid sequence (outside the modelled domain)")
+    if e in ('utf16', 'utf16le', 'utf16be'):
+        return utf16_decode(b, e, errors)
     raise Inconclusive("decode(%s, %s) of symbolic bytes" % (enc, errors))
+
+
+def utf16_decode(b, e, errors):
+    """CPython's UTF-16 decoders over symbolic bytes: 'utf-16' looks for a byte order mark first (FF FE: little endian,
+    FE FF: big endian, both consumed; none: native = little endian), 'utf-16-le' / 'utf-16-be' take every unit as data.
+    Lone surrogates are errors (only the error-free domain is modelled for errors != 'strict')."""
+    from .engine import SInt as _S
+    it = [_S.of(x) for x in b.items]
+    big = e == 'utf16be'
+    i = 0
+    if e == 'utf16' and len(it) >= 2:
+        u0 = it[0] | (it[1] << 8)
+        if bool(SBool(u0.e == 0xFEFF)):
+            i = 2
+        elif bool(SBool(u0.e == 0xFFFE)):
+            i = 2
+            big = True
+
+    def err():
+        if errors == 'strict':
+            return UnicodeDecodeError('utf-16', b'\xff\xff', 0, 2, 'illegal encoding')
+        return Inconclusive("utf-16 decode with errors=%r reached an ill-formed sequence (outside the modelled domain)" % errors)
+
+    def unit(k):
+        return (it[k + 1] | (it[k] << 8)) if big else (it[k] | (it[k + 1] << 8))
+    out = []
+    n = len(it)
+    while i < n:
+        if i + 1 >= n:
+            raise err()
+        u = unit(i)
+        i += 2
+        if bool(SBool(z3.And(u.e >= 0xD800, u.e <= 0xDBFF))):
+            if i + 1 >= n:
+                raise err()
+            lo = unit(i)
+            if not bool(SBool(z3.And(lo.e >= 0xDC00, lo.e <= 0xDFFF))):
+                raise err()
+            i += 2
+            out.append(((u - 0xD800) << 10) + (lo - 0xDC00) + 0x10000)
+        elif bool(SBool(z3.And(u.e >= 0xDC00, u.e <= 0xDFFF))):
+            raise err()
+        else:
+            out.append(u)
+    return SStr([x if isinstance(x, int) else _norm(x.e) for x in out])
 
 
 def utf8_decode_strict(b):
